@@ -289,11 +289,26 @@ fn run_sd(prop: &'static str, tier: Tier) -> i32 {
         out.acc.merge(o.acc);
         out.violation = o.violation;
     }
+    let mut engine = "sdsim";
+    if prop == "C14" && out.violation.is_none() {
+        // "calls after errors": faulted sequences, monitor on for the healthy prefix and after recovery
+        let near = tier == Tier::Thorough;
+        let n = env_cases(0);
+        let cases = if n > 0 { n / 2 + 1 } else { tier.pick(12_000, 400_000) };
+        let o = runner::run_parallel("C14-after-fault", seed, cases, move || sde::case_strategy(true, near), |c: &sde::SdCase, a: &mut Acc| sde::run_c14_after_fault(c, a));
+        out.acc.merge(o.acc);
+        if o.violation.is_some() {
+            out.violation = o.violation;
+            engine = "sdsim-after-fault";
+        }
+    }
     out.wall_s = t0.elapsed().as_secs_f64();
-    let engine = byte_stage(prop, tier, seed, &mut out).unwrap_or("sdsim");
+    if let Some(e) = byte_stage(prop, tier, seed, &mut out) {
+        engine = e;
+    }
     let (level, rule): (&str, &str) = match prop {
         "C12" => ("exploration", "card kind (v1 SC, v2 SC, HC) x CRC on/off x capacity (boundary C_SIZE / multiplier / READ_BL_LEN values) x timings (Ncr 0-8, data-token delay, busy periods, idle polls, ignored CMD0s) x 1-40 BlockDevice calls (read/write of 1, 2-8, 64 blocks at block numbers 0, 1, last, last-n, 2^k, 2^k-1, >= 2^23, random; read-back; num_blocks/num_bytes/get_card_type; mark_card_uninit) against a simulated card written from the SD specification. Oracle: model of the card memory compared everywhere after every call, and the same sequence with every n-block transfer done as n single transfers. non-trivial = contains a multi-block transfer and a read-back of a written block; distinct by (kind, crc, call-kind sequence, Ncr)"),
-        "C14" => ("exploration", "the same generated runs as C12; every MOSI byte is checked by the card's protocol monitor (frame bits, CRC-7, busy, CMD55 prefix, identification order, data tokens, 512+2 framing with CRC-16 when on, CMD12 / stop token). non-trivial = run contains a multi-block write and a re-initialisation; distinct by (kind, crc, command sequence on the bus)"),
+        "C14" => ("exploration", "the same generated runs as C12; every MOSI byte is checked by the card's protocol monitor (frame bits, CRC-7, busy, CMD55 prefix, identification order, data tokens, 512+2 framing with CRC-16 when on, CMD12 / stop token). Second stage (calls after errors): C13-style sequences with one injected fault, monitor judging the healthy prefix and everything sent after the card was power-cycled (traffic during the faulted call is not judged). non-trivial = run contains a multi-block write and a re-initialisation, or (second stage) calls after recovery; distinct by (kind, crc, command sequence on the bus) / (kind, crc, fault kind, call sequence)"),
         _ => ("fault_enumeration", "C12-style sequences with one injected fault: every single-bit flip position of a data block + CRC (4112 positions, enumerated for each card kind), bursts <= 16 bits, wrong data tokens, rejected data blocks, failed write status, card dead / busy / garbage from byte p, SPI bus error at transaction n. Ok only with correct data (CRC on), Err where the property requires it, SPI byte budget per driver call (20,000,000 bytes, enforced by the card) as termination bound, recovery after power-cycle (+ mark_card_uninit unless the failure was in the identification sequence). non-trivial = the fault fired; distinct by (kind, crc, fault, call-kind sequence)"),
     };
     let ev = EvidenceIn {
@@ -442,6 +457,10 @@ fn replay(path: &str) -> i32 {
         "mount" => {
             let case: sdmmc_verif::engines::mount::MountCase = serde_json::from_value(rf.case).expect("case does not parse");
             sdmmc_verif::engines::mount::run_case(&case, &mut acc, true)
+        }
+        "sdsim-after-fault" => {
+            let case: sdmmc_verif::sd::engine::SdCase = serde_json::from_value(rf.case).expect("case does not parse");
+            sdmmc_verif::sd::engine::run_c14_after_fault(&case, &mut acc)
         }
         "sdsim" => {
             let case: sdmmc_verif::sd::engine::SdCase = serde_json::from_value(rf.case).expect("case does not parse");
